@@ -4,7 +4,9 @@ set -e
 cd "$(dirname "$0")/.."
 export GOFLAGS=-mod=mod GOPROXY=off GOSUMDB=off GOTOOLCHAIN=local
 T=$(mktemp -d /tmp/pgverif-setup-XXXXXX)
-trap 'rm -rf "$T" /tmp/SANY* /tmp/tlc-* 2>/dev/null' EXIT
+trap 'rm -rf "$T" 2>/dev/null' EXIT
+mkdir -p "$T/jtmp"
+export JAVA_TOOL_OPTIONS="-Djava.io.tmpdir=$T/jtmp"
 cp spec/*.tla "$T"/
 for f in "$T"/*.tla; do
   (cd "$T" && timeout 120 tla-sany "$(basename "$f")" >/dev/null 2>&1) || { echo "SANY failed on $f"; (cd "$T" && tla-sany "$(basename "$f")" | tail -20); exit 1; }
